@@ -184,7 +184,7 @@ def make_font(tape, idx):
     if kind == "type1":
         first = t.pick([32, 65, 0], "font.first")
         n = 128 - first
-        widths = {first + i: F(125 * t.rint(1, 8, "font.w")) for i in range(n)}
+        widths = {first + i: F(125 * t.rint(0, 8, "font.w")) for i in range(n)}  # 0 is a legal width
         descent = F(-25 * t.rint(0, 12, "font.descent"))
         missing = F(125 * t.rint(0, 4, "font.missing"))
         fd = {b"Type": Name(b"FontDescriptor"), b"FontName": Name(name), b"Flags": 32, b"Ascent": 750, b"Descent": int(descent), b"MissingWidth": int(missing), b"FontBBox": [0, int(descent), 1000, 750], b"ItalicAngle": 0, b"CapHeight": 700, b"StemV": 80}
@@ -193,7 +193,7 @@ def make_font(tape, idx):
     if kind == "type3":
         k = t.pick([512, 1024, 256], "font.t3scale")
         first = 65
-        widths = {first + i: F(64 * t.rint(1, 8, "font.w")) for i in range(26)}
+        widths = {first + i: F(64 * t.rint(0, 8, "font.w")) for i in range(26)}
         ll = -64 * t.rint(0, 3, "font.t3descent")
         obj = {b"Type": Name(b"Font"), b"Subtype": Name(b"Type3"), b"FontBBox": [0, ll, 512, 512], b"FontMatrix": [F(1, k), 0, 0, F(1, k), 0, 0], b"CharProcs": {}, b"Encoding": {b"Type": Name(b"Encoding"), b"Differences": [65, Name(b"A")]}, b"FirstChar": first, b"LastChar": first + 25, b"Widths": [int(widths[first + i]) for i in range(26)]}
         fontname = "unknown"
@@ -209,7 +209,7 @@ def make_font(tape, idx):
     c = 30
     for _ in range(t.rint(0, 3, "font.wn")):
         n = t.rint(1, 4, "font.wrun")
-        ws = [F(125 * t.rint(1, 8, "font.w")) for _ in range(n)]
+        ws = [F(125 * t.rint(0, 8, "font.w")) for _ in range(n)]
         warr += [c, [int(w) for w in ws]]
         for i, w in enumerate(ws):
             widths[c + i] = w
